@@ -399,6 +399,42 @@ def rule_tables(repo: Repo, rid: str = "C12.tables") -> RuleResult:
     return r
 
 
+def _recursion_children(repo: Repo, f: FuncInfo, p) -> set:
+    """the child positions the tree walk descends into: self-recursive calls of the function, or of a private helper it hands the node to
+    (a recursive generator that yields the leaves, a recursive worker) -- recursion cannot be analysed in place, so the helper is read
+    on its own"""
+    def own(fi: FuncInfo, pv) -> set:
+        out = set()
+        for c in L.calls_in(fi.node):
+            if isinstance(c.func, ast.Name) and c.func.id == fi.name and c.args:
+                out |= _child_indices(pv.trace(c.args[0]))
+            elif isinstance(c.func, ast.Attribute) and c.func.attr == fi.name and fi.cls and c.args:
+                out |= _child_indices(pv.trace(c.args[0]))
+        return out
+
+    idx = own(f, p)
+    if idx:
+        return idx
+    seen = {f.qn}
+    work = [f]
+    for _ in range(3):
+        nxt = []
+        for fi in work:
+            for c in L.calls_in(fi.node):
+                _cat, tg = repo.resolve_call(fi, c)
+                for _k, t, _c in tg:
+                    if t is None or t.qn in seen or t.mod is not f.mod or not t.name.startswith("_"):
+                        continue
+                    seen.add(t.qn)
+                    ft = L.fn(repo, t.qn.split("::", 1)[1] if t.cls else t.qn)
+                    got = own(ft, L.prov(repo, ft))
+                    if got:
+                        return got
+                    nxt.append(ft)
+        work = nxt
+    return set()
+
+
 def rule_leaf(repo: Repo) -> RuleResult:
     """calculate(): a leaf evaluates to its function's value or to its own constant; inner nodes recurse on both children."""
     r = RuleResult("C12.leaf", "calculate: leaf -> fluent value / constant, inner node -> table applied to both recursive results",
@@ -419,11 +455,7 @@ def rule_leaf(repo: Repo) -> RuleResult:
         if isinstance(ret.value, ast.Subscript) or isinstance(ret.value, ast.Call):
             pass
     # structural: two recursive self-calls exist
-    rec = [c for c in L.calls_in(f.node) if isinstance(c.func, ast.Name) and c.func.id == f.name]
-    idx = set()
-    for c in rec:
-        if c.args:
-            idx |= _child_indices(p.trace(c.args[0]))
+    idx = _recursion_children(repo, f, p)
     if idx == {"0", "1"}:
         r.ok({"recursive_calls_on_children": sorted(idx)})
     else:
@@ -432,11 +464,7 @@ def rule_leaf(repo: Repo) -> RuleResult:
     g = L.fn(repo, f"{NE}::set_expression_value")
     pg = L.prov(repo, g)
     r.site(g.qn)
-    rec = [c for c in L.calls_in(g.node) if isinstance(c.func, ast.Name) and c.func.id == g.name]
-    idx = set()
-    for c in rec:
-        if c.args:
-            idx |= _child_indices(pg.trace(c.args[0]))
+    idx = _recursion_children(repo, g, pg)
     if idx == {"0", "1"}:
         r.ok({"set_expression_value_recurses_on": sorted(idx)})
     else:
